@@ -97,6 +97,41 @@ Section Replay.
       intros H; inversion H; subst; split; reflexivity.
   Qed.
 
+  (** an accepted request establishes the facts of [accepted] *)
+  Lemma sop_of_request_accepted d r x :
+    sop_of_request I d r = Some x -> exists o, accepted I d r x o (row_of d x).
+  Proof.
+    unfold sop_of_request.
+    destruct (get_op I (r_job r) (r_pos r)) as [o|] eqn:Ho; [|discriminate].
+    destruct (nthN (jnext d) (r_job r) =? r_pos r)%nat eqn:Hnext; [|discriminate].
+    apply Nat.eqb_eq in Hnext.
+    destruct (resolve_pure o (r_mach r)) as [m|e] eqn:Hres; [|discriminate].
+    assert (Hmm : match r_mach r with Some m' => m' = m | None => exists k, machines o = [k] /\ m = Z.of_nat k end).
+    { unfold resolve_pure in Hres. destruct (r_mach r) as [m'|].
+      - inversion Hres; reflexivity.
+      - destruct (machines o) as [|k [|k2 t]]; inversion Hres. exists k; split; reflexivity. }
+    destruct (py_index (length (mfree d)) m) as [mi|] eqn:Hpi; [|discriminate].
+    destruct (existsb (fun k : nat => Z.of_nat k =? m) (machines o)) eqn:Hel; [|discriminate].
+    apply existsb_elig in Hel. destruct Hel as [Hin Hmeq].
+    assert (Hm0 : 0 <= m) by lia.
+    destruct (py_index_nonneg _ _ _ Hm0 Hpi) as [Hmi Hlt]. subst mi.
+    destruct (nth_error (sched d) (Z.to_nat m)) as [row|] eqn:Hrow; [|discriminate].
+    cbv zeta.
+    set (st := Z.max (nthZ (mfree d) (Z.to_nat m)) (nthZ (jfree d) (r_job r))).
+    assert (Hacc : forall (Hl : match last_opt row with Some y => s_end I y <= st | None => True end),
+               accepted I d r (mksop (r_job r) (r_pos r) st (Z.to_nat m)) o row).
+    { intros Hl. constructor; try reflexivity; auto.
+      cbn [s_mach]. destruct (r_mach r) as [m'|].
+      + subst m'. exact Hmeq.
+      + destruct Hmm as (k & Hk & Hmk). rewrite Hk. subst m. rewrite Nat2Z.id. reflexivity. }
+    assert (Hro : forall y, y = mksop (r_job r) (r_pos r) st (Z.to_nat m) -> row_of d y = row).
+    { intros y ->. unfold row_of. cbn [s_mach]. apply nth_error_nth. exact Hrow. }
+    destruct (last_opt row) as [y|] eqn:Hlast.
+    - destruct (s_end I y <=? st) eqn:Hle; [|discriminate]. apply Z.leb_le in Hle.
+      intros H; inversion H; subst x. exists o. rewrite (Hro _ eq_refl). apply Hacc. exact Hle.
+    - intros H; inversion H; subst x. exists o. rewrite (Hro _ eq_refl). apply Hacc. exact Logic.I.
+  Qed.
+
   (** Re-issuing the request reconstructed from the recorded operation (its
       operation and the machine it ran on) is accepted with the same result. *)
   Lemma sop_of_request_replay d r x :
